@@ -227,6 +227,8 @@ thread_local! {
 
 pub fn with<R>(f: impl FnOnce(&mut World) -> R) -> R {
     crate::heartbeat::beat();
+    // a slow machine: simulated time passes with every access to the simulated kernel (0 by default)
+    crate::rawsys::clock::stream_call();
     WORLD.with(|w| f(&mut w.borrow_mut()))
 }
 
